@@ -1,6 +1,7 @@
 package main
 
 import (
+	"go/constant"
 	"fmt"
 	"os"
 	"sort"
@@ -29,6 +30,7 @@ type bndProver struct {
 	sys *linSys
 	ari map[*Term]bool // arithmetic atoms already related to their operands
 	axDone map[*Term]bool
+	pendingDiv []*Term // x / k atoms whose axiom waits for x >= 0 to become provable
 }
 
 func (c *Ctx) newProver(fa *FnAnalysis, st *State) *bndProver {
@@ -54,6 +56,7 @@ func (p *bndProver) cloneP() *bndProver {
 	for k, v := range p.axDone {
 		n.axDone[k] = v
 	}
+	n.pendingDiv = append([]*Term{}, p.pendingDiv...)
 	return n
 }
 
@@ -151,6 +154,18 @@ func (p *bndProver) lin(t *Term, atoms map[*Term]bool) (*linExpr, bool) {
 		}
 	case "N", "MI", "TA", "TAOK", "ISNIL", "TYPEOF", "VALOF", "FA", "IA":
 		return nil, false
+	case "B":
+		if t.S == "(+)" {
+			// exact (unwrapped) sum, produced only by the conserved-sum loop invariant and by rules
+			a, okA := p.lin(t.A, atoms)
+			b, okB := p.lin(t.B, atoms)
+			if !okA || !okB {
+				return nil, false
+			}
+			r := a.clone()
+			r.addScaled(b, big.NewRat(1, 1))
+			return r, true
+		}
 	}
 	atoms[t] = true
 	return linAtom(t), true
@@ -227,6 +242,8 @@ func (p *bndProver) axioms(atoms map[*Term]bool) {
 					}
 				}
 			}
+		case t.K == "B" && t.S == "/":
+			p.pendingDiv = append(p.pendingDiv, t)
 		case t.K == "V":
 			if call, ok := t.V.(*ssa.Call); ok {
 				if cal := p.c.p.callee(&call.Call); cal != nil && cal.String() == "math/rand.Int63" {
@@ -234,7 +251,7 @@ func (p *bndProver) axioms(atoms map[*Term]bool) {
 				}
 			}
 		}
-		if t.K != "LEN" && t.K != "B" {
+		if t.K != "LEN" && (t.K != "B" || t.S == "/") {
 			// every int value lies within the 64-bit range
 			lo := newLin()
 			lo.k.SetInt(new(big.Int).Neg(new(big.Int).Lsh(big.NewInt(1), 63)))
@@ -413,6 +430,49 @@ func arithSubterms(ts ...*Term) []*Term {
 	return out
 }
 
+// tryDiv adds, for every pending x / k (k > 0 constant) whose dividend is now provably
+// non-negative, the axiom of truncated division:  k*q <= x <= k*q + k-1,  q >= 0.
+func (p *bndProver) tryDiv() {
+	for round := 0; round < 3; round++ {
+		var still []*Term
+		progress := false
+		for _, t := range p.pendingDiv {
+			done := false
+			if t.B.K == "C" {
+				if r, ok := constRat(t.B.Const); ok && r.Sign() > 0 {
+					sub := map[*Term]bool{}
+					if la, ok := p.lin(t.A, sub); ok {
+						p.axioms(sub)
+						p.relateArith(arithSubterms(t.A), sub)
+						if p.sys.entailsLE(linConst(0), la) {
+							kq := newLin()
+							kq.addScaled(linAtom(t), r)
+							p.sys.addLE(kq, la)
+							up := kq.clone()
+							up.k.Add(up.k, new(big.Rat).Sub(r, big.NewRat(1, 1)))
+							p.sys.addLE(la, up)
+							p.sys.addLE(linConst(0), linAtom(t))
+							done = true
+							progress = true
+						}
+					}
+				} else {
+					done = true
+				}
+			} else {
+				done = true
+			}
+			if !done {
+				still = append(still, t)
+			}
+		}
+		p.pendingDiv = still
+		if !progress || len(still) == 0 {
+			break
+		}
+	}
+}
+
 func (p *bndProver) le(a, b *Term) bool {
 	atoms := map[*Term]bool{}
 	la, ok1 := p.lin(a, atoms)
@@ -421,6 +481,7 @@ func (p *bndProver) le(a, b *Term) bool {
 		return false
 	}
 	p.axioms(atoms)
+	p.tryDiv()
 	p.relateArith(arithSubterms(a, b), atoms)
 	return p.sys.entailsLE(la, lb)
 }
@@ -433,12 +494,16 @@ func (p *bndProver) lt(a, b *Term) bool {
 		return false
 	}
 	p.axioms(atoms)
+	p.tryDiv()
 	p.relateArith(arithSubterms(a, b), atoms)
 	return p.sys.entailsLT(la, lb)
 }
 
 // provesFact: linear entailment of a comparison fact.
 func (c *Ctx) provesFact(fa *FnAnalysis, st *State, f Fact, stackVals []ssa.Value) bool {
+	if f.Kind == aTR && f.T.K == "C" && f.T.Const != nil && f.T.Const.Kind() == constant.Bool {
+		return constant.BoolVal(f.T.Const) == f.Val // a comparison of constants, already folded
+	}
 	if f.Kind != aTR || f.T.K != "B" {
 		return false
 	}
@@ -507,6 +572,7 @@ func (c *Ctx) stateInfeasibleUncached(fa *FnAnalysis, st *State, stackVals []ssa
 	for _, v := range stackVals {
 		p.stackLen(v)
 	}
+	p.tryDiv()
 	return p.sys.infeasible()
 }
 
